@@ -118,9 +118,8 @@ theorem fhCells_head (nl : Nat) : ∃ t, fhCells nl = Cell.fh nl 0 :: t := by
 theorem getD_of_getElem? (l : List Nat) (i : Nat) (h : i < l.length) : l[i]? = some (l.getD i 0) := by
   simp [List.getD, h]
 
-theorem sizeField_block (b : Block) (hw : b.WF) (rest : List Cell) :
+theorem sizeField_block' (b : Block) (h16 : b.hdr.length = 16) (hle : le32 b.hdr = b.plen) (rest : List Cell) :
     sizeField (blockCells b ++ rest) = some b.plen := by
-  obtain ⟨h16, hle, _⟩ := hw
   have e0 : b.hdr[0]? = some (b.hdr[0]'(by omega)) := List.getElem?_eq_getElem (by omega)
   have e1 : b.hdr[1]? = some (b.hdr[1]'(by omega)) := List.getElem?_eq_getElem (by omega)
   have e2 : b.hdr[2]? = some (b.hdr[2]'(by omega)) := List.getElem?_eq_getElem (by omega)
@@ -128,6 +127,27 @@ theorem sizeField_block (b : Block) (hw : b.WF) (rest : List Cell) :
   simp only [blockCells, hdrCells_eq, List.cons_append, List.nil_append, sizeField, cellByte, e0, e1, e2, e3]
   simp only [le32, List.getD_eq_getElem?_getD, e0, e1, e2, e3, Option.getD_some] at hle
   simp [hle]
+
+theorem sizeField_block (b : Block) (hw : b.WF) (rest : List Cell) :
+    sizeField (blockCells b ++ rest) = some b.plen := sizeField_block' b hw.1 hw.2.1 rest
+
+/-- a block whose count field does not match its entries (a wrapped `EntryCount`): the reader
+    rejects it, whatever follows -/
+theorem readBlocks_block_badcnt (f : Nat) (b : Block) (h16 : b.hdr.length = 16) (hle : le32 b.hdr = b.plen)
+    (hc : b.cnt ≠ b.ents.length) (rest : List Cell) :
+    readBlocks (f + 1) (blockCells b ++ rest) = ([], Stop.crc) := by
+  have hlen : (blockCells b ++ rest).length = 16 + b.plen + rest.length := by simp
+  have hhead : (blockCells b ++ rest).head? = some (Cell.bh b 0) := by
+    simp [blockCells, hdrCells_eq]
+  have htake : (blockCells b ++ rest).take (16 + b.plen) = blockCells b := by
+    rw [List.take_append_of_le_length (by simp)]
+    exact List.take_of_length_le (by simp)
+  rw [readBlocks]
+  simp only [hlen, sizeField_block' b h16 hle rest, hhead, htake]
+  have h1 : ¬ (16 + b.plen + rest.length = 0) := by omega
+  have h2 : ¬ (16 + b.plen + rest.length < 16) := by omega
+  have h3 : ¬ (16 + b.plen + rest.length - 16 < b.plen) := by omega
+  simp [h1, h2, h3, hc]
 
 /-- one intact block in front: the reader returns its entries and goes on behind it -/
 theorem readBlocks_block (f : Nat) (b : Block) (hw : b.WF) (rest : List Cell) :
@@ -147,7 +167,7 @@ theorem readBlocks_block (f : Nat) (b : Block) (hw : b.WF) (rest : List Cell) :
   have h1 : ¬ (16 + b.plen + rest.length = 0) := by omega
   have h2 : ¬ (16 + b.plen + rest.length < 16) := by omega
   have h3 : ¬ (16 + b.plen + rest.length - 16 < b.plen) := by omega
-  simp [h1, h2, h3]
+  simp [h1, h2, h3, hw.2.2.2]
 
 theorem readBlocks_nil (f : Nat) : readBlocks f [] = ([], Stop.eof) := by
   cases f <;> simp [readBlocks]
@@ -210,6 +230,34 @@ theorem loadFile_clean (c : RCfg) (nl : Nat) (bs : List Block) (hw : ∀ b ∈ b
   rw [hlen]
   have := readBlocks_render bs hw ((fileCells nl bs).length - bs.length) []
   simp only [List.append_nil, readBlocks_nil] at this
+  rw [this]
+  simp [stopOk]
+
+/-- **A block with a wrapped count field hides the whole file**: however many intact blocks
+    precede it, `LoadIndex` returns an error. -/
+theorem loadFile_badcnt (c : RCfg) (nl : Nat) (bs : List Block) (hw : ∀ b ∈ bs, b.WF) (b : Block)
+    (h16 : b.hdr.length = 16) (hle : le32 b.hdr = b.plen) (hc : b.cnt ≠ b.ents.length) :
+    loadFile c (fileCells nl bs ++ blockCells b) = .errLoad := by
+  have hdr : (fileCells nl bs ++ blockCells b).drop 64 = nmCells nl ++ (render bs ++ blockCells b) := by
+    simp only [fileCells, List.append_assoc]
+    rw [List.drop_append_of_le_length (by simp)]
+    simp [List.drop_of_length_le]
+  have hdr2 : (nmCells nl ++ (render bs ++ blockCells b)).drop nl = render bs ++ blockCells b := by
+    rw [List.drop_append_of_le_length (by simp)]
+    simp [List.drop_of_length_le]
+  have hlen : (fileCells nl bs ++ blockCells b).length =
+      bs.length + (((fileCells nl bs ++ blockCells b).length - bs.length - 1) + 1) := by
+    have := render_length_ge bs
+    simp only [fileCells, List.length_append, fhCells_length, nmCells_length, blockCells_length]
+    omega
+  have hh : headerOf (fileCells nl bs ++ blockCells b) = some nl := by
+    simp only [fileCells, List.append_assoc]; exact headerOf_file nl _
+  simp only [loadFile, hh, hdr, hdr2]
+  have hnl : ¬ ((nmCells nl ++ (render bs ++ blockCells b)).length < nl) := by simp
+  simp only [hnl, if_false]
+  rw [hlen, readBlocks_render bs hw _ (blockCells b)]
+  have := readBlocks_block_badcnt ((fileCells nl bs ++ blockCells b).length - bs.length - 1) b h16 hle hc []
+  rw [List.append_nil] at this
   rw [this]
   simp [stopOk]
 
